@@ -10,11 +10,18 @@ structure ModSummary where
   defs : List String
   classMethods : List (String × String)
   assigns : List String
+  classAssigns : List (String × String) := []
 deriving Repr
 
 /-- the set `format_code(safe=True)` adds to `preserve` -/
 def safeSet (m : ModSummary) (preserve : List String) : List String :=
-  preserve ++ m.defs ++ m.classMethods.map (fun p => p.1 ++ "." ++ p.2) ++ m.assigns
+  preserve ++ m.defs ++ m.classMethods.map (fun p => p.1 ++ "." ++ p.2) ++ m.assigns ++
+    m.classAssigns.map (fun p => p.1 ++ "." ++ p.2)
+
+/-- the guard of the rules that rename or move a member `n` of class `cls`: both the bare name and `Class.member` are
+looked up (`align_variable_names_with_convention`, `move_staticmethod_static_scope`) -/
+def memberGuarded (preserve : List String) (cls : String) (candidates : List String) : List String :=
+  candidates.filter (fun n => !(preserve.contains n || preserve.contains (cls ++ "." ++ n)))
 
 /-- `filename_preserve[f]`: union of the used names of all preserved files except the file's own namespace -/
 def filePreserve (used : List (String × List String)) (ns : String) : List String :=
@@ -44,7 +51,21 @@ theorem safeSet_preserve (m : ModSummary) (p : List String) (d : String) (h : d 
 theorem safeSet_method (m : ModSummary) (p : List String) (c f : String) (h : (c, f) ∈ m.classMethods) :
     (c ++ "." ++ f) ∈ safeSet m p := by
   simp only [safeSet, List.mem_append, List.mem_map]
-  exact Or.inl (Or.inr ⟨(c, f), h, rfl⟩)
+  exact Or.inl (Or.inl (Or.inr ⟨(c, f), h, rfl⟩))
+
+theorem safeSet_classAssign (m : ModSummary) (p : List String) (c f : String) (h : (c, f) ∈ m.classAssigns) :
+    (c ++ "." ++ f) ∈ safeSet m p := by
+  simp only [safeSet, List.mem_append, List.mem_map]
+  exact Or.inr ⟨(c, f), h, rfl⟩
+
+theorem memberGuarded_spares (preserve candidates : List String) (cls n : String)
+    (h : n ∈ preserve ∨ (cls ++ "." ++ n) ∈ preserve) : n ∉ memberGuarded preserve cls candidates := by
+  have hc : (preserve.contains n || preserve.contains (cls ++ "." ++ n)) = true := by
+    simp only [Bool.or_eq_true, List.contains_iff_mem]; exact h
+  intro hm
+  have := (List.mem_filter.mp hm).2
+  rw [hc] at this
+  cases this
 
 theorem guarded_spares (preserve candidates : List String) (n : String) (h : n ∈ preserve) :
     n ∉ guarded preserve candidates := by
